@@ -44,7 +44,9 @@ chk.assumptions = [
     'value tolerance 1e-13 relative for float tokens (pandas default C float parser: <= ~6 roundings of 1.1e-16), '
     'exact for integer tokens',
     'a cell whose printed token is a non-numeric fragment of a number cut by the crash (e.g. "-", "5.6e-") may be '
-    'returned as that string or as NaN; columns holding such a fragment may hold strings that parse to the printed value',
+    'returned as that string or as NaN; cells the crash left unprinted must be NaN; every completely printed token '
+    '(also in the column that holds a fragment) must come back as a number, not as a string',
+    'columns printed only by runs that crashed before their first thermo line may or may not appear in a flattened table',
     'after the cut right behind the memory banner (no header printed) the crashed run may be absent or have an empty '
     'thermo; all earlier runs must be present',
     'flatten first/last is compared only when every run starts and ends no earlier than the previous one and both print '
@@ -134,16 +136,12 @@ def cell_ok(cell, tok):
         ref = float(tok)
     except ValueError:                   # fragment of a number cut by the crash
         return (isinstance(cell, str) and cell == tok) or isnan(cell)
-    if isinstance(cell, str):
-        try:
-            val = float(cell)
-        except ValueError:
-            return False
-    else:
-        try:
-            val = float(cell)
-        except (TypeError, ValueError):
-            return False
+    if isinstance(cell, (str, bytes, bool)):   # a completely printed number must come back as a number
+        return False
+    try:
+        val = float(cell)
+    except (TypeError, ValueError):
+        return False
     if math.isnan(val):
         return False
     if is_int_token(tok) or ref == 0.0:
@@ -298,9 +296,17 @@ def compare_flatten(log, tables, tag, first=None, last=None):
             fails.append(Fail(key='%s-raises-%s:%s' % (key, type(e).__name__, tag), msg='flatten(%r) raised %s: %s' % (style, type(e).__name__, e)))
             continue
         cols, rows = model_flatten(tables, style)
-        if not isinstance(df, pd.DataFrame) or sorted(map(str, df.columns)) != sorted(cols):
-            fails.append(Fail(key='%s-columns:%s' % (key, tag), msg='flattened columns %r, expected %r' % (
-                list(getattr(df, 'columns', [])), cols)))
+        # columns printed only by runs that crashed before their first thermo line carry no value: optional
+        optional = [c for c in cols if not any(c in tb['cols'] for tb in tables if tb['rows'])]
+        cols = [c for c in cols if c not in optional]
+        if (not isinstance(df, pd.DataFrame) or len(set(df.columns)) != len(df.columns)
+                or sorted(c for c in map(str, df.columns) if c not in optional) != sorted(cols)):
+            fails.append(Fail(key='%s-columns:%s' % (key, tag), msg='flattened columns %r, expected %r (optional %r)' % (
+                list(getattr(df, 'columns', [])), cols, optional)))
+            continue
+        if not rows:                     # no run printed a thermo line: nothing to merge
+            if len(df):
+                fails.append(Fail(key='%s-steps:%s' % (key, tag), msg='flatten(%r) has %d rows, no thermo line was printed' % (style, len(df))))
             continue
         data = {c: df[c].tolist() for c in cols}
         got_steps = data['Step']
@@ -327,10 +333,10 @@ def compare_flatten(log, tables, tag, first=None, last=None):
     return fails
 
 
-def judge(log, model_tables, versions, tag):
+def judge(log, model_tables, versions, tag, flatten=True):
     f = compare_records(log, model_tables, tag)
     f += compare_version(log, versions, tag)
-    if not f:
+    if not f and flatten:
         f += compare_flatten(log, model_tables, tag)
     return f
 
@@ -357,6 +363,13 @@ def crash(case):
     fails, seen, nvar = [], set(), 0
     versions = [(model['version'], model['date'])]
     cuts = [c for c in G.cut_points(lines, midrows='all' if THOROUGH else 'last') if c[0] == cls]
+    if cls == 'midrow' and not THOROUGH:
+        # quick tier: every cut inside a token, and of each run of blanks only its first and its last position
+        # (the cuts in between print the same tokens followed by blanks)
+        def keep(cut):
+            frag, full = cut[2], lines[cut[1]][0]
+            return not (frag[-1] == ' ' and frag[-2:-1] == ' ' and full[len(frag):len(frag) + 1] == ' ')
+        cuts = [c for c in cuts if keep(c)]
     variants = []
     for c, upto, tail, nk, ptoks in cuts:
         variants.append((c, G.text_of(lines, upto, tail), nk, ptoks))
@@ -378,7 +391,7 @@ def crash(case):
             kinds = ('text', 'path', 'stream')
         else:   # quick tier: loop/post/midrow cuts are read through one input kind each, rotating with the cut
             kinds = (('text', 'path', 'stream')[nvar % 3],)
-        for kind in kinds:
+        for ik, kind in enumerate(kinds):
             arg, closer = give(text, kind)
             try:
                 try:
@@ -387,8 +400,10 @@ def crash(case):
                     f = [Fail(key='read-raises-%s:%s' % (type(e).__name__, tag),
                               msg='Log(%s) raised %s: %s' % (kind, type(e).__name__, str(e)[:200]), shape=shape)]
                 else:
-                    f = judge(log, exp, versions, tag)
-                    if c == 'complete' and len(exp) >= 2 and not f:
+                    # flatten works on the records, which were just compared with the printed tables: in the quick
+                    # tier it is exercised through the first input kind of each text only
+                    f = judge(log, exp, versions, tag, flatten=THOROUGH or ik == 0)
+                    if c == 'complete' and len(exp) >= 2 and not f and (THOROUGH or ik == 0):
                         f += compare_flatten(log, exp, tag, 1, None)
                         f += compare_flatten(log, exp, tag, 0, -1)
             finally:
@@ -428,7 +443,7 @@ def inputs(case):
                     fails.append(Fail(key='read-raises-%s:input=%s' % (type(e).__name__, kind),
                                       msg='%s with %s raised %s: %s' % (how, kind, type(e).__name__, str(e)[:200])))
                     break
-                fails += judge(log, model['tables'], versions, 'input=' + kind)
+                fails += judge(log, model['tables'], versions, 'input=' + kind, flatten=THOROUGH or how == 'ctor')
                 chk.note('reads')
         finally:
             if closer:
@@ -488,6 +503,8 @@ def _hist_logs():
     # D: crashed right after the memory banner of its only run
     D = dict(banner='new', nblocks=1, keymode=0, relation='none', timing='new', filler='plain')
     mk('D-cut-after-banner', D, endA, SALT + 3, cut=('after-banner', 0))
+    # G: crashed right after the column header of its only run (a record without rows, possibly the first one)
+    mk('G-cut-after-header', dict(D, banner='old', timing='old'), endA - 20, SALT + 6, cut=('after-header', 0))
     if THOROUGH:
         # E: cut in the middle of the second row, after three tokens
         mk('E-cut-midrow', A, endA, SALT + 4, cut=('midrow', 1, 3))
